@@ -7,7 +7,7 @@ from .common import Oracle, Suite, errname, hx, merge
 from .formats_common import cps
 
 GEN_UNITS = ["ShaCrypt", "B64", "MiscTables", "PyUnicode", "LibpassAll"]
-LEAN_TARGETS = ["PasslibVerif.Props.C20", "PasslibVerif.Props.C20Pbkdf", "PasslibVerif.Props.C20Bcrypt", "PasslibVerif.Props.C20PbkdfInterop"]
+LEAN_TARGETS = ["PasslibVerif.Props.C20", "PasslibVerif.Props.C20Pbkdf", "PasslibVerif.Props.C20Bcrypt", "PasslibVerif.Props.C20PbkdfInterop", "PasslibVerif.Props.C20BcryptStr"]
 ASSUMPTIONS = [
     "hashlib.pbkdf2_hmac and the bcrypt package are external code shared by both libraries; for them the model's digest is the RFC 8018 / bcrypt "
     "specification (Spec.Pbkdf, compared on every run) and interop is established at the string level plus differential runs",
@@ -208,7 +208,13 @@ def correspond(ctx):
                     ans = "err " + errname(e)
                 s_lp.add_raw(f"lp bc {R} verify {cps(c)} {ck}", ans, "bc:verify")
     cross_matrix(ctx, o_x)
-    return merge(s_lp, s_cl, o_x)
+    # the string assembly of the two libpass bcrypt hashers (hash / verify / identify / needs_update over the recorded calls into the
+    # bcrypt package): Model.LibpassBcryptStr (suite `lpbs`)
+    from . import c20_bcrypt_str
+
+    s_bs = Suite(ctx, "libpass-bcrypt-string-model")
+    c20_bcrypt_str.model_suite(ctx, s_bs)
+    return merge(s_lp, s_cl, s_bs, o_x)
 
 
 def cross_matrix(ctx, o_x, first_only=False):
